@@ -116,6 +116,13 @@ fn fits(bits: u32, x: u128) -> bool {
 
 /// Everything the property says about one value.
 pub fn check_value(x: u128) -> Result<(), String> {
+	match guarded(|| check_value_inner(x)) {
+		Ok(r) => r,
+		Err(p) => Err(format!("compact encode/decode of {} panicked: {}", x, p)),
+	}
+}
+
+fn check_value_inner(x: u128) -> Result<(), String> {
 	let mut want = Vec::with_capacity(17);
 	enc_compact(x, &mut want);
 	macro_rules! w {
@@ -155,6 +162,35 @@ pub fn check_value(x: u128) -> Result<(), String> {
 /// Decoder of width W on one byte string vs the reference.
 #[inline]
 pub fn check_string<W: CW>(s: &[u8]) -> Result<bool, String> {
+	match guarded(|| check_string_raw::<W>(s)) {
+		Ok(r) => r,
+		Err(p) => Err(format!("Compact<u{}> decode of {} panicked: {}", W::BITS, hex(s), p)),
+	}
+}
+
+thread_local! {
+	/// whether the exhaustive loops guard every single call (slow) or rely on the block guard
+	static SLOW: std::cell::Cell<bool> = const { std::cell::Cell::new(false) };
+}
+
+/// Run an exhaustive block unguarded inside one panic guard; if anything in it panics, discard its
+/// counts and run it again with a guard around every single call so that the case is attributed.
+/// A panic of the subject is a violation, never a crash of the check.
+fn block(acc: &mut Acc, f: impl Fn(&mut Acc)) {
+	let mut local = Acc::default();
+	if guarded(|| f(&mut local)).is_ok() {
+		acc.merge(local);
+		return;
+	}
+	SLOW.with(|s| s.set(true));
+	let mut local = Acc::default();
+	f(&mut local);
+	SLOW.with(|s| s.set(false));
+	acc.merge(local);
+}
+
+#[inline]
+pub fn check_string_raw<W: CW>(s: &[u8]) -> Result<bool, String> {
 	let got = W::dec(s);
 	let want = fast_ref(W::BITS, s);
 	match (got, want) {
@@ -178,6 +214,15 @@ fn viol(acc: &mut Acc, sub: &str, key: &str, detail: String, case: Json) {
 /// allocates; `encode()` is covered by `check_value` on all 16-bit values, windows and lanes).
 #[inline]
 pub fn check_value_fast(x: u128, all_widths: bool) -> bool {
+	if SLOW.with(|s| s.get()) {
+		guarded(|| check_value_fast_inner(x, all_widths)).unwrap_or(false)
+	} else {
+		check_value_fast_inner(x, all_widths)
+	}
+}
+
+#[inline]
+fn check_value_fast_inner(x: u128, all_widths: bool) -> bool {
 	let mut w = Buf { data: [0; 24], len: 0 };
 	// reference encoding without allocation
 	if x < 1 << 6 {
@@ -257,7 +302,8 @@ fn values_range(lo: u128, hi: u128, acc: &mut Acc) {
 }
 
 fn strings<W: CW>(acc: &mut Acc, s: &[u8], accepted: &mut u64) {
-	match check_string::<W>(s) {
+	let r = if SLOW.with(|x| x.get()) { check_string::<W>(s) } else { check_string_raw::<W>(s) };
+	match r {
 		Ok(a) => {
 			if a {
 				*accepted += 1;
@@ -471,11 +517,11 @@ pub fn run(tier: Tier) -> Report {
 		let lo = i << 20;
 		if lo == 0 {
 			values_range(0, 1 << 16, acc);
-			values_range_fast(1 << 16, 1 << 20, true, acc);
+			block(acc, |a| values_range_fast(1 << 16, 1 << 20, true, a));
 		} else {
 			// quick tier: values >= 2^24 go through the native 32-bit width only (the other widths
 			// share no code with the value beyond the mode split, which the windows cover)
-			values_range_fast(lo, lo + (1 << 20), thorough || lo < 1 << 24, acc);
+			block(acc, |a| values_range_fast(lo, lo + (1 << 20), thorough || lo < 1 << 24, a));
 		}
 		acc.outcome("value-range");
 	});
@@ -516,16 +562,19 @@ pub fn run(tier: Tier) -> Report {
 	let firsts: Vec<u8> = (0..=255u8).collect();
 	let acc = par(&firsts, |f, acc| {
 		heartbeat(&format!("strings first byte {:02x}", f));
-		distinguishable::<u8>(*f, false, acc);
-		distinguishable::<u16>(*f, false, acc);
-		distinguishable::<u32>(*f, true, acc);
+		block(acc, |a| distinguishable::<u8>(*f, false, a));
+		block(acc, |a| distinguishable::<u16>(*f, false, a));
+		block(acc, |a| distinguishable::<u32>(*f, true, a));
+		// the one-, two- and four-byte modes of the wide decoders are separate code: same strings
+		block(acc, |a| distinguishable::<u64>(*f, false, a));
+		block(acc, |a| distinguishable::<u128>(*f, false, a));
 		acc.outcome("first-byte-class");
 	});
-	rep.part("distinguishable strings (8/16/32-bit)", "one-byte strings, all 2-byte mode-1 strings, all 2^30 four-byte mode-2 strings and every proper prefix, the 63 larger tags with boundary payloads", acc);
+	rep.part("distinguishable strings", "for each of the five decoders: one-byte strings, all 2-byte mode-1 strings, all 2^30 four-byte mode-2 strings and every proper prefix, the larger tags with boundary payloads", acc);
 
 	let tops: Vec<u8> = if tier.thorough() { (0..=255u8).collect() } else { vec![0, 1, 0x3f, 0x40, 0x41, 0x7f, 0x80, 0xc0, 0xfe, 0xff] };
 	let acc = par(&tops, |t, acc| {
-		tag03::<u32>(*t, acc);
+		block(acc, |a| tag03::<u32>(*t, a));
 		acc.outcome("tag03-top-byte");
 	});
 	rep.part(
@@ -536,9 +585,9 @@ pub fn run(tier: Tier) -> Report {
 
 	let tags: Vec<u8> = (0..64u8).collect();
 	let acc = par(&tags, |t, acc| {
-		wide_strings::<u64>(*t, acc);
-		wide_strings::<u128>(*t, acc);
-		wide_strings::<u32>(*t, acc);
+		block(acc, |a| wide_strings::<u64>(*t, a));
+		block(acc, |a| wide_strings::<u128>(*t, a));
+		block(acc, |a| wide_strings::<u32>(*t, a));
 		acc.outcome("length-tag");
 	});
 	rep.part("length-tagged strings (64/128-bit)", "every length tag x supplied payload length {n-1,n,n+1} x top byte x second-top byte x fill {00,ff,lane}", acc);
